@@ -19,42 +19,42 @@ UNITS = [
     U("C01.sig_sign", ["C01"], "harness/C01/sig_sign.c", "h_sig_sign", replace=MULINV + GEN, assumed=MULINV + GEN,
       functions=["secp256k1_ecdsa_sig_sign", "secp256k1_fe_normalize", "secp256k1_fe_get_b32", "secp256k1_scalar_set_b32",
                  "secp256k1_scalar_add", "secp256k1_scalar_is_high", "secp256k1_scalar_cond_negate", "secp256k1_fe_is_odd", "secp256k1_scalar_is_zero"],
-      timeout=600, min_obl=1691, replay=False),
+      timeout=600, min_obl=1750, replay=False),
     U("C01.verify_api", ["C01"], "harness/C01/verify_api.c", "h_verify_api", replace=["secp256k1_ecdsa_sig_verify"],
       functions=["secp256k1_ecdsa_verify", "secp256k1_ecdsa_signature_load", "secp256k1_pubkey_load", "secp256k1_scalar_set_b32", "secp256k1_scalar_is_high", "secp256k1_ge_from_bytes"],
-      timeout=600, min_obl=658, replay=False, note="secp256k1_ecdsa_sig_verify replaced by its verdict-oracle contract; its gates are proved by C01.sig_verify"),
+      timeout=600, min_obl=641, replay=False, note="secp256k1_ecdsa_sig_verify replaced by its verdict-oracle contract; its gates are proved by C01.sig_verify"),
     U("C01.normalize", ["C01"], "harness/C01/normalize.c", "h_normalize",
       functions=["secp256k1_ecdsa_signature_normalize", "secp256k1_ecdsa_signature_load", "secp256k1_ecdsa_signature_save", "secp256k1_scalar_is_high", "secp256k1_scalar_negate"],
-      timeout=600, min_obl=565, replay=False),
+      timeout=600, min_obl=550, replay=False),
     U("C01.sign_inner", ["C01"], "harness/C01/sign_inner.c", "h_sign_inner", replace=SIGN_INNER_REPL, assumed=GEN,
       loop_contracts=SIGN_LOOP, closed_by="loop contract on the nonce retry loop (engine-supplied --loop-contracts-file, no /repo edit); partial correctness, termination not claimed",
       functions=["secp256k1_ecdsa_sign_inner", "secp256k1_scalar_set_b32_seckey", "secp256k1_scalar_set_b32", "secp256k1_scalar_cmov", "secp256k1_int_cmov", "nonce_function_rfc6979"],
-      timeout=900, min_obl=977, replay=False,
+      timeout=900, min_obl=1013, replay=False,
       note="sig_sign and nonce_function_rfc6979_impl replaced by contracts proved in C01.sig_sign / C01.rfc6979; user nonce callback = stub writing only nonce32 and returning any int"),
     U("C01.rfc6979", ["C01", "C15"], "harness/C01/rfc6979.c", "h_rfc6979", replace=RFC_DRBG,
       loop_contracts=RFC_LOOP, closed_by="loop contract on the counter loop (engine-supplied --loop-contracts-file, no /repo edit); partial correctness",
       functions=["nonce_function_rfc6979_impl", "buffer_append", "secp256k1_scalar_set_b32", "secp256k1_scalar_get_b32"],
-      timeout=600, min_obl=560, replay=False,
+      timeout=600, min_obl=604, replay=False,
       note="DRBG object functions replaced by ghost-logging frame contracts (their bodies: C05 hash units)"),
     U("C01.sign_api", ["C01"], "harness/C01/sign_api.c", "h_sign", replace=SIGN_INNER_REPL, assumed=GEN,
       loop_contracts=SIGN_LOOP, closed_by="loop contract on the nonce retry loop (engine-supplied --loop-contracts-file, no /repo edit); partial correctness, termination not claimed",
       functions=["secp256k1_ecdsa_sign", "secp256k1_ecdsa_sign_inner", "secp256k1_ecdsa_signature_save", "secp256k1_ecmult_gen_context_is_built"],
-      timeout=900, min_obl=1204, replay=False),
+      timeout=900, min_obl=1264, replay=False),
     U("C01.sign_recoverable", ["C01"], "harness/C01/sign_api.c", "h_sign_recoverable", defs=["UNIT_SIGN_RECOVERABLE"], replace=SIGN_INNER_REPL, assumed=GEN,
       loop_contracts=SIGN_LOOP, closed_by="loop contract on the nonce retry loop (engine-supplied --loop-contracts-file, no /repo edit); partial correctness, termination not claimed",
       functions=["secp256k1_ecdsa_sign_recoverable", "secp256k1_ecdsa_sign_inner", "secp256k1_ecdsa_recoverable_signature_save"],
-      timeout=900, min_obl=1210, replay=False),
+      timeout=900, min_obl=1281, replay=False),
     U("C01.rec_parse", ["C01"], "harness/C01/rec_codec.c", "h_rec_parse",
       functions=["secp256k1_ecdsa_recoverable_signature_parse_compact", "secp256k1_ecdsa_recoverable_signature_serialize_compact", "secp256k1_ecdsa_recoverable_signature_convert",
                  "secp256k1_ecdsa_recoverable_signature_save", "secp256k1_ecdsa_recoverable_signature_load", "secp256k1_scalar_set_b32", "secp256k1_scalar_get_b32"],
-      timeout=600, min_obl=585, replay=False),
+      timeout=600, min_obl=617, replay=False),
     U("C01.rec_serialize", ["C01"], "harness/C01/rec_codec.c", "h_rec_ser",
       functions=["secp256k1_ecdsa_recoverable_signature_serialize_compact", "secp256k1_ecdsa_recoverable_signature_convert", "secp256k1_ecdsa_recoverable_signature_load"],
-      timeout=600, min_obl=527, replay=False),
+      timeout=600, min_obl=564, replay=False),
     U("C01.sig_recover", ["C01"], "harness/C01/sig_recover.c", "h_sig_recover", replace=REC_ORACLES, assumed=REC_ORACLES,
       functions=["secp256k1_ecdsa_sig_recover", "secp256k1_scalar_get_b32", "secp256k1_fe_set_b32_limit", "secp256k1_fe_cmp_var", "secp256k1_fe_add", "secp256k1_scalar_negate", "secp256k1_gej_set_ge"],
-      timeout=600, min_obl=1646, replay=False),
+      timeout=600, min_obl=1753, replay=False),
     U("C01.recover_api", ["C01"], "harness/C01/recover_api.c", "h_recover_api", replace=["secp256k1_ecdsa_sig_recover"],
       functions=["secp256k1_ecdsa_recover", "secp256k1_ecdsa_recoverable_signature_load", "secp256k1_scalar_set_b32", "secp256k1_pubkey_save"],
-      timeout=600, min_obl=663, replay=False, note="secp256k1_ecdsa_sig_recover replaced by its verdict-oracle contract; its gates are proved by C01.sig_recover"),
+      timeout=600, min_obl=723, replay=False, note="secp256k1_ecdsa_sig_recover replaced by its verdict-oracle contract; its gates are proved by C01.sig_recover"),
 ]
